@@ -357,11 +357,14 @@ def d5_maxint(ctx):
     cfg = CFG(fi.node)
     rows = []
     for r in returns_of(fi.node):
-        gs = [(norm(t), pol) for t, pol in cfg.guards(cfg.node_for(r))]
-        imec = any("imec" in g and pol for g, pol in gs)
-        nidq = any("imec" in g and not pol for g, pol in gs)
-        np2 = any("NP2" in g and pol for g, pol in gs)
-        np1 = any("NP2" in g and not pol for g, pol in gs)
+        # which device / probe generation the path condition of this return entails (propositional, shape-independent)
+        at = GD.Atoms()
+        pc = GD.path_condition(cfg, cfg.node_for(r), at)
+        ks = GD.atoms_of(pc)
+        imec = any(GD.entails(pc, GD.Atom(k)) is True for k in ks if "'imec'" in k)
+        nidq = any(GD.entails(pc, GD.Not(GD.Atom(k))) is True for k in ks if "'imec'" in k)
+        np2 = any(GD.entails(pc, GD.Atom(k)) is True for k in ks if "'NP2'" in k)
+        np1 = any(GD.entails(pc, GD.Not(GD.Atom(k))) is True for k in ks if "'NP2'" in k)
         v = r.value
         inner = v.args[0] if isinstance(v, ast.Call) and call_name(v) == "int" and v.args else v
         key = default = None
